@@ -107,7 +107,7 @@ def data_writes(f, org, data_idx):
 
 def run(ctx, rep):
     prog = ctx.program("default")
-    rep.configs.append("default")
+    rep.configs.append(getattr(ctx, "alias", "default"))
     dep = Dependence(prog)
     adt = prog.adts[FB]
     gen = [g["name"] for g in adt["generics"]]
